@@ -530,6 +530,12 @@ func (r *Run) returnClass(path *Path) string {
 			}
 			return "errvar:" + id.Name
 		}
+		// return f(…) with f looked into on this path: what f returned
+		if _, isCall := ast.Unparen(res).(*ast.CallExpr); isCall {
+			if c := r.errExprClass(path, ev.Fn, res); c != "" {
+				return c
+			}
+		}
 		// errors.New(...).WithType(ErrTypeSessionNotJoined)...
 		notJoined := false
 		ast.Inspect(res, func(n ast.Node) bool {
@@ -641,9 +647,21 @@ func errVarKnownNil(path *Path, i int, fn *Func, obj types.Object) bool {
 // errExprClass classifies an error expression returned by a looked-into helper: the decode error, the
 // not-joined error, or "" when nothing specific is known.
 func (r *Run) errExprClass(path *Path, fn *Func, x ast.Expr) string {
+	return r.errExprClassD(path, fn, x, 0)
+}
+
+func (r *Run) errExprClassD(path *Path, fn *Func, x ast.Expr, depth int) string {
 	info := fn.Info()
 	if isNilIdent(info, x) {
 		return "nil"
+	}
+	// return f(…) where f was looked into on this path: what f returned (its last result)
+	if call, ok := ast.Unparen(x).(*ast.CallExpr); ok && depth < 5 {
+		if res, rfn, ok := r.P.inlinedResults(fn, call); ok && len(res) >= 1 {
+			if c := r.errExprClassD(path, rfn, res[len(res)-1], depth+1); c != "" {
+				return c
+			}
+		}
 	}
 	if id, ok := ast.Unparen(x).(*ast.Ident); ok {
 		obj := info.Uses[id]
